@@ -178,6 +178,66 @@ def run_acquire(ctx: Ctx, r: LockRoles):
     return it, outs
 
 
+def _rule_with_protocol(ctx: Ctx, r: 'LockRoles', enter_rule: Optional[str], exit_rule: Optional[str]) -> None:
+    """The with-statement / acquire_ctx protocol.  enter_rule: the protected region (normal return of `__enter__`, the
+    `yield` of a @contextmanager method) is reached only through the success edge of an acquire() call of this function.
+    exit_rule: `__exit__` calls release() on every path; after the yield of a context-manager method every exit passes
+    release()."""
+    p = ctx.program
+    meths = [f for f in r.unit.functions() if f.enclosing_class() is not None and f.enclosing_function() is None]
+    enters = [f for f in meths if f.name == '__enter__']
+    exits_ = [f for f in meths if f.name == '__exit__']
+    ctxs = [f for f in meths if f.is_generator and any((dotted(d) or '').endswith('contextmanager') for d in f.decorators)]
+
+    def calls_of(g, target):
+        return [n for n in g.nodes if n.kind == 'call' and callee_info(g, n.ast)['kind'] == 'package'
+                and target in callee_info(g, n.ast).get('scopes', [])]
+
+    def success_edges(g, acqs):
+        out = set()
+        for a in acqs:
+            br = [x for x in g.nodes if x.kind == 'branch' and x.meta['test'] is a.ast]
+            par = parent(a.ast)
+            if not br and isinstance(par, ast.Assign) and len(par.targets) == 1 and isinstance(par.targets[0], ast.Name):
+                br = [x for x in g.nodes if x.kind == 'branch' and isinstance(x.meta['test'], ast.Name) and x.meta['test'].id == par.targets[0].id]
+            for b in br:
+                out |= {id(e) for e in g.succ[b.id] if e.label == 'true'}
+        return out
+    if enter_rule:
+        for f in enters + ctxs:
+            g = build(f, p, inline_methods=True)
+            acqs = calls_of(g, r.acquire)
+            se = success_edges(g, acqs)
+            region = [n for n in g.nodes if n.kind == 'yield'] if f in ctxs else [n for n in g.nodes if n.kind == 'return'] + \
+                [n for n in g.nodes if n.kind == 'implicit_return']
+            w = None
+            for t in region:
+                w = w or find_path(g, [g.entry], [t], edge_ok=lambda e: id(e) not in se)
+            ctx.check(enter_rule, f'{f.qualname}: the protected region is entered only after a successful acquire()', f'{FILE}:{f.lineno}',
+                      w is None and bool(se) and bool(region),
+                      'every path to the with-body passes the success edge of acquire()',
+                      'the with-body can be entered without the lock having been acquired (no acquire() on the way, or its failure ignored)',
+                      witness=render(g, w), construct=construct_key(f.qualname, 'body entered without acquire'))
+    if exit_rule:
+        for f in exits_:
+            g = build(f, p, inline_methods=True)
+            rels = calls_of(g, r.release)
+            w = must_pass(g, [g.entry], [g.exit], rels)
+            ctx.check(exit_rule, f'{f.qualname}: every normal path calls release()', f'{FILE}:{f.lineno}', w is None and bool(rels),
+                      'leaving the with-block gives the lock back', 'a path through __exit__ does not release: the lock stays held after the with-block',
+                      witness=render(g, w), construct=construct_key(f.qualname, 'exit without release'))
+        for f in ctxs:
+            g = build(f, p, inline_methods=True)
+            rels = calls_of(g, r.release)
+            ys = [n for n in g.nodes if n.kind == 'yield']
+            starts = [e for y in ys for e in g.succ[y.id]]
+            w = must_pass(g, [], [g.exit, g.raise_exit], rels, start_edges=starts) if starts else None
+            ctx.check(exit_rule, f'{f.qualname}: after the yield every exit (normal, exception thrown in by the with-body) passes release()',
+                      f'{FILE}:{f.lineno}', w is None and bool(rels) and bool(starts),
+                      'released in a finally', 'an exception in the with-body (or its normal end) leaves the lock held',
+                      witness=render(g, w), construct=construct_key(f.qualname, 'ctx exit without release'))
+
+
 def run_release(ctx: Ctx, r: LockRoles, locked: Optional[bool]):
     it = r.interp(ctx.program)
     # a caller that holds the lock holds the thread lock at least once
@@ -205,6 +265,7 @@ def c02(ctx: Ctx) -> None:
     ctx.rule('C02-R7', 'the result of acquire() is never dropped at a call site inside the package', 1)
     ctx.rule('C02-R8', 'a function that both acquires and releases reaches release() only through the success edge of its own acquire()', 1)
     ctx.rule('C02-R10', 'release() never releases the in-process lock more often than the caller holds it (= C12-R12)', 1)
+    ctx.rule('C02-R12', 'the with-body of `with lock:` / `with lock.acquire_ctx():` is entered only through the success edge of acquire()', 1)
     ctx.rule('C02-R11', 'the lock-file descriptor is closed only by the OS acquire helper (failed attempt) and the OS release helper', 1)
     # R1/R2 via the affine interpreter
     if not r.has_tl:
@@ -400,6 +461,7 @@ def c02(ctx: Ctx) -> None:
                       'descriptor of the thread that really holds the lock, letting a third contender in',
                       witness=render(g, w), construct=construct_key(f.qualname, 'release without own acquire'))
     _rule_surplus_release(ctx, r, 'C02-R10')
+    _rule_with_protocol(ctx, r, 'C02-R12', None)
     # R11: who may close a descriptor
     closers = []
     allowed = {r.os_acquire.qualname, r.os_release.qualname}
@@ -579,6 +641,8 @@ def c12(ctx: Ctx) -> None:
     ctx.trusted += ['threading.Lock / RLock semantics', 'time.time / time.sleep']
     ctx.assumptions += ['precondition of every method: counter == depth of the thread lock held by the calling thread (c), '
                         'and c >= 1 whenever the caller holds the lock; release is called by the acquiring thread']
+    ctx.rule('C12-R14', '__exit__ releases on every path; acquire_ctx releases on every exit after its yield', 1)
+    ctx.rule('C12-R13', 'the outermost release (c == 1) and release(force=True) at any depth end with the OS lock dropped, counter 0, thread lock free', 2)
     ctx.rule('C12-R1', 'balance: on every exit of acquire/release, counter - depth(thread lock) = 0; '
                        'acquire: False/raise leave both unchanged, True adds one to both; '
                        'release: full/forced release ends at 0/0, nested release subtracts one from both', 6)
@@ -651,7 +715,10 @@ def c12(ctx: Ctx) -> None:
                 exp = 'full/forced release: CNT=0, DEPTH=0 (any thread can acquire again)'
             else:
                 exp = 'nested release: CNT=c-1, DEPTH=c-1, still locked'
-                ok = s.v['CNT'] == Lin(1, -1) and s.v['DEPTH'] == Lin(1, -1) and (s.c_known is None or s.c_known >= 2)
+                # (the path must know that it is an inner level: c >= 2; "still locked with c - 1 levels" for c == 1
+                # would be a released counter with the OS lock kept)
+                ok = s.v['CNT'] == Lin(1, -1) and s.v['DEPTH'] == Lin(1, -1) and (s.c_known is None or s.c_known >= 2) \
+                    and (s.c_known is not None or s.cmin >= 2)
                 if s.c_known is not None:
                     ok = s.v['CNT'] == Lin(0, s.c_known - 1) and s.v['DEPTH'] == Lin(0, s.c_known - 1) and s.c_known >= 2
             if o.kind == 'raise':
@@ -666,6 +733,26 @@ def c12(ctx: Ctx) -> None:
                       construct=construct_key(r.release.qualname, 'force at depth>=2 leaves RLock owned')
                       if (forced and full and s.v['CNT'] == Lin(0, 0) and s.v['DEPTH'] != Lin(0, 0)) else
                       construct_key(r.release.qualname, 'imbalance', o.kind, str(forced), repr(s.v['CNT']), repr(s.v['DEPTH']), s.locked))
+        # completeness: the outermost release and a forced release give the lock up entirely
+        fparam = r.release.params[1] if len(r.release.params) > 1 else None
+        for label, seed_force, ck in (('outermost release (c == 1, not forced)', False, 1), ('forced release at any depth', True, None)):
+            it2 = r.interp(ctx.program)
+            st0 = _entry_state(1, True)
+            if fparam is not None:
+                st0.facts[fparam] = seed_force
+            elif seed_force:
+                continue
+            if ck is not None:
+                st0.fix_c(Fraction(ck))
+            outs2 = it2.run(r.release, st0)
+            bad2 = [o for o in outs2 if not (o.kind == 'return' and o.state.locked is False and o.state.v['CNT'] == Lin(0, 0)
+                                             and o.state.v['DEPTH'] == Lin(0, 0))]
+            o2 = bad2[0] if bad2 else None
+            ctx.check('C12-R13', f'{label}: {len(outs2)} path(s)', f'{FILE}:{(o2.node.line if o2 else r.release.lineno)}', not bad2 and bool(outs2),
+                      'every path ends with the OS lock dropped, the counter 0 and the thread lock free',
+                      (f'a path ends {o2.kind} with CNT={o2.state.v["CNT"]!r} DEPTH={o2.state.v["DEPTH"]!r} LOCKED={o2.state.locked}: the lock is '
+                       'not given up although this was the last / a forced release - nobody can acquire it again') if o2 else 'no path',
+                      witness=o2.state.trace if o2 else [], construct=construct_key(r.release.qualname, 'incomplete release', label))
         # R9: every outcome released TL at least once
         for o in outs:
             s = o.state
@@ -727,6 +814,16 @@ def c12(ctx: Ctx) -> None:
                       witness=s.trace, construct=construct_key(r.release.qualname, 'unheld release has effects'))
     except Undecided as e:
         ctx.undecided('C12-R4', 'release() unheld', f'{FILE}:{r.release.lineno}', str(e))
+    _rule_with_protocol(ctx, r, None, 'C12-R14')
+    # R15: a fresh object holds nothing: the constructor sets the depth counter to 0 (the precondition counter == depth
+    # of the interpretation above starts from there)
+    ctx.rule('C12-R15', 'the constructor initialises the depth counter to 0', 1)
+    cinit = [n for n in own_nodes(r.init.node) if isinstance(n, (ast.Assign, ast.AnnAssign)) and getattr(n, 'value', None) is not None
+             and any(_self_attr(t_, r.cnt) for t_ in (n.targets if isinstance(n, ast.Assign) else [n.target]))]
+    okc = len(cinit) == 1 and isinstance(cinit[0].value, ast.Constant) and cinit[0].value.value == 0 and not isinstance(cinit[0].value.value, bool)
+    ctx.check('C12-R15', f'{r.init.qualname}: {[norm(x) for x in cinit]}', f'{FILE}:{cinit[0].lineno if cinit else r.init.lineno}', okc,
+              'self.<counter> = 0, once', 'a new lock object does not start with depth 0: the first release is taken for an inner one (or the attribute is missing)',
+              construct=construct_key(r.init.qualname, 'counter initialisation'))
     # R3
     _rule_lock_kind(ctx, r)
     # R5
